@@ -47,17 +47,19 @@ class PreparedConditionCallable:
         if not source_data:
             return self.args, self.kwargs
 
-        resolved_args = []
-        for arg in self.args:
+        def resolve(arg, nested=True):
             if isinstance(arg, valida.datapath.DataPath):
-                arg = arg.get_data(source_data, return_paths=False)
-            resolved_args.append(arg)
+                return arg.get_data(source_data, return_paths=False)
+            elif nested and isinstance(arg, (list, tuple)):
+                # data paths given as items of a list argument (as `from_spec` accepts):
+                return type(arg)(resolve(i, nested=False) for i in arg)
+            elif nested and isinstance(arg, dict):
+                # data paths given as values of a mapping argument (as `from_spec` accepts):
+                return {k: resolve(v, nested=False) for k, v in arg.items()}
+            return arg
 
-        resolved_kwargs = {}
-        for k, v in self.kwargs.items():
-            if isinstance(v, valida.datapath.DataPath):
-                v = v.get_data(source_data, return_paths=False)
-            resolved_kwargs[k] = v
+        resolved_args = [resolve(arg) for arg in self.args]
+        resolved_kwargs = {k: resolve(v) for k, v in self.kwargs.items()}
 
         return tuple(resolved_args), resolved_kwargs
 
